@@ -25,10 +25,10 @@ func np(ns ...int64) Partial {
 	}
 	return p
 }
-func star() Partial { return Partial{Nums: []int64{-1}, Wild: []byte{'*'}} }
-func id(s string) Ident { return Ident{S: s} }
-func in(n int64) Ident  { return Ident{Num: true, N: n} }
-func comps(cs ...Comparator) Alt { return Alt{Comps: cs} }
+func star() Partial                      { return Partial{Nums: []int64{-1}, Wild: []byte{'*'}} }
+func id(s string) Ident                  { return Ident{S: s} }
+func in(n int64) Ident                   { return Ident{Num: true, N: n} }
+func comps(cs ...Comparator) Alt         { return Alt{Comps: cs} }
 func cm(op string, p Partial) Comparator { return Comparator{Op: op, P: p} }
 
 type wit struct {
